@@ -27,6 +27,7 @@
 #include "nmtools/array/array/ufuncs/subtract.hpp"
 #include "nmtools/array/array/activations/leaky_relu.hpp"
 #include "nmtools/array/array/activations/hardtanh.hpp"
+#include "nmtools/array/array/expand_dims.hpp"
 #include "nmtools/array/array/sum.hpp"
 #include "nmtools/array/array/transpose.hpp"
 #include "nmtools/array/array/reshape.hpp"
@@ -46,11 +47,11 @@ namespace fn = nmtools::functional;
 using farr_t = dyn_t<float>;
 
 // ---- programs (device-supported view compositions of depth 1..3) ---------------------------------------------------
-enum { P_ADD, P_SQUARE, P_SUM, P_TRANSPOSE, P_RESHAPE, P_FLATTEN, P_BROADCAST_TO, P_MULADD, P_SUM_MUL, P_T_ADD, P_NEG_T, P_RESHAPE_MULADD, P_SUM_T_MUL, P_MUL_SUMKEEP, P_SUB_A_SQB, P_LRELU_NEG, P_HTANH_SUB, NPROG };
-static const char* prog_name(int p) { static const char* n[] = {"add(a,b)", "square(a)", "sum(a,axis)", "transpose(a)", "reshape(a,(N,))", "flatten(a)", "broadcast_to(b,shape(a))", "add(multiply(a,b),b)", "sum(multiply(a,b),axis)", "transpose(add(a,b))", "negative(transpose(a))", "reshape(add(multiply(a,b),b),(N,))", "sum(transpose(multiply(a,b)),axis)", "multiply(sum(a,axis,keepdims),a)", "subtract(a,square(b))", "leaky_relu(negative(a),0.2)", "hardtanh(subtract(a,b),-0.5,0.75)"}; return n[p]; }
+enum { P_ADD, P_SQUARE, P_SUM, P_TRANSPOSE, P_RESHAPE, P_FLATTEN, P_BROADCAST_TO, P_MULADD, P_SUM_MUL, P_T_ADD, P_NEG_T, P_RESHAPE_MULADD, P_SUM_T_MUL, P_MUL_SUMKEEP, P_SUB_A_SQB, P_LRELU_NEG, P_HTANH_SUB, P_EXPAND2, NPROG };
+static const char* prog_name(int p) { static const char* n[] = {"add(a,b)", "square(a)", "sum(a,axis)", "transpose(a)", "reshape(a,(N,))", "flatten(a)", "broadcast_to(b,shape(a))", "add(multiply(a,b),b)", "sum(multiply(a,b),axis)", "transpose(add(a,b))", "negative(transpose(a))", "reshape(add(multiply(a,b),b),(N,))", "sum(transpose(multiply(a,b)),axis)", "multiply(sum(a,axis,keepdims),a)", "subtract(a,square(b))", "leaky_relu(negative(a),0.2)", "hardtanh(subtract(a,b),-0.5,0.75)", "expand_dims(negative(a),(0,2))"}; return n[p]; }
 static bool uses_b(int p) { return p == P_ADD || p == P_BROADCAST_TO || p == P_MULADD || p == P_SUM_MUL || p == P_T_ADD || p == P_RESHAPE_MULADD || p == P_SUM_T_MUL || p == P_SUB_A_SQB || p == P_HTANH_SUB; }
 static bool uses_axis(int p) { return p == P_SUM || p == P_SUM_MUL || p == P_SUM_T_MUL || p == P_MUL_SUMKEEP; }
-static int depth_of(int p) { return p <= P_BROADCAST_TO ? 1 : (p <= P_NEG_T ? 2 : ((p == P_MUL_SUMKEEP || p == P_SUB_A_SQB || p == P_LRELU_NEG || p == P_HTANH_SUB) ? 2 : 3)); }
+static int depth_of(int p) { return p <= P_BROADCAST_TO ? 1 : (p <= P_NEG_T ? 2 : ((p == P_MUL_SUMKEEP || p == P_SUB_A_SQB || p == P_LRELU_NEG || p == P_HTANH_SUB || p == P_EXPAND2) ? 2 : 3)); }
 
 template <int P> static auto build(const farr_t& a, const farr_t& b, int axis) {
     long N = 1; for (size_t i = 0; i < (size_t)a.dim(); i++) N *= (long)nm::at(a.shape(), i);
@@ -73,6 +74,9 @@ template <int P> static auto build(const farr_t& a, const farr_t& b, int axis) {
     // the extracted function forgot the parameters)
     else if constexpr (P == P_LRELU_NEG) return view::leaky_relu(view::negative(a), 0.2f);
     else if constexpr (P == P_HTANH_SUB) return view::hardtanh(view::subtract(a, b), -0.5f, 0.75f);
+    // an OUTPUT of higher rank than any operand (rank d+2: 5 for the 3-d shapes of the quick tier, 6 for the 4-d ones of the thorough tier): the kernel rebuilds the
+    // output's shape in a bounded per-thread vector (seeded change m13c lowered its capacity to 4)
+    else if constexpr (P == P_EXPAND2) { il ax; ax.push_back(0); ax.push_back(2); return view::expand_dims(view::negative(a), ax); }
     else return view::multiply(view::sum(a, axis, nm::None, nm::None, nm::True), a);
 }
 
@@ -241,7 +245,7 @@ Outcome nmc_execute(const Case& c) {
     Outcome o;
     switch (c.a[0][0]) {
 #define PCASE(P) case P: o = run_prog<P>(c, g_thorough); break;
-    PCASE(P_ADD) PCASE(P_SQUARE) PCASE(P_SUM) PCASE(P_TRANSPOSE) PCASE(P_RESHAPE) PCASE(P_FLATTEN) PCASE(P_BROADCAST_TO) PCASE(P_MULADD) PCASE(P_SUM_MUL) PCASE(P_T_ADD) PCASE(P_NEG_T) PCASE(P_RESHAPE_MULADD) PCASE(P_SUM_T_MUL) PCASE(P_MUL_SUMKEEP) PCASE(P_SUB_A_SQB) PCASE(P_LRELU_NEG) PCASE(P_HTANH_SUB)
+    PCASE(P_ADD) PCASE(P_SQUARE) PCASE(P_SUM) PCASE(P_TRANSPOSE) PCASE(P_RESHAPE) PCASE(P_FLATTEN) PCASE(P_BROADCAST_TO) PCASE(P_MULADD) PCASE(P_SUM_MUL) PCASE(P_T_ADD) PCASE(P_NEG_T) PCASE(P_RESHAPE_MULADD) PCASE(P_SUM_T_MUL) PCASE(P_MUL_SUMKEEP) PCASE(P_SUB_A_SQB) PCASE(P_LRELU_NEG) PCASE(P_HTANH_SUB) PCASE(P_EXPAND2)
     default: nmc::die("unknown program");
     }
     nmc::count("states", (long)(g_states->size() - before)); nmc::count("traces_validated", 1);
